@@ -3341,6 +3341,11 @@ def _check_entry_for_changes(
         # file), so we assume that counts as different from whatever file
         # used to exist.
         return tree_path
+    except OSError as e:
+        # ... or by a symbolic link that leads nowhere but to itself
+        if e.errno != errno.ELOOP:
+            raise
+        return tree_path
     else:
         if blob.id != entry.sha:
             return tree_path
